@@ -21,6 +21,7 @@ from __future__ import annotations
 import os
 import random
 import re
+import time
 
 from vf.core.obs import Obs, cpu_guard, CpuBudget, exc_sig
 from vf.core import anchors
@@ -282,6 +283,8 @@ class Monitor:
         self.pbase = {}
         self.xbase = {}
         self.adjbase = {}
+        self.triage_cpu = 0.0
+        self.triage_cap = 90.0
         self.kindN = 0
         self._orig_magic = None
 
@@ -853,6 +856,14 @@ def run_nowiki(mon, obs, rng, c, cls, budget, exh=None):
         if prob is None:
             continue
         obs.count("nowiki.failures")
+        if mon.triage_cpu > mon.triage_cap:
+            # a tree on which (nearly) everything fails: the time for classification/minimisation is spent; the
+            # failure is still a violation, under a coarse signature (never reached on the pinned tree)
+            obs.count("nowiki.failures.triage-budget-spent")
+            obs.violation("nowiki/%s/unminimised(triage-budget-spent)" % prob[0].split(":")[0], prob[1],
+                          dict(case, part="nowiki"))
+            continue
+        t0 = time.process_time()
         cheap = None
         if not (budget[0] > 0 or budget[1] % 20 == 0):
             cheap = mon.cheap_class(case, prob)
@@ -862,6 +873,7 @@ def run_nowiki(mon, obs, rng, c, cls, budget, exh=None):
             obs.count("nowiki.failures.state-dependent")
             obs.violation("nowiki/state-dependent(passes-on-fresh-context)/" + prob[0].split(":")[0], prob[1],
                           dict(case, part="nowiki", state_dependent=True))
+            mon.triage_cpu += time.process_time() - t0
             continue
         if cheap is None:
             budget[0] -= 1
@@ -872,6 +884,7 @@ def run_nowiki(mon, obs, rng, c, cls, budget, exh=None):
             # over the minimisation budget and recognised (one extra run) as a class that is already recorded
             obs.count("nowiki.failures.unminimised." + cheap)
         budget[1] += 1
+        mon.triage_cpu += time.process_time() - t0
         if pl["check"] == "expand" and pl["ctx"] == "top":
             # the other contexts would fail for the same reason
             obs.count("contexts.skipped-after-top-failure")
@@ -945,6 +958,7 @@ def run_shard(spec):
     obs = Obs()
     rng = random.Random(spec["seed"])
     mon = Monitor(obs)
+    mon.triage_cap = 90.0 if spec.get("tier", "quick") == "quick" else 900.0
     n = spec["n"]
     nb = [40, 0]
     kb = [40, 0]
@@ -963,6 +977,7 @@ def run_shard(spec):
             for _ in range(4):
                 run_comment(mon, obs, rng, kb)
     mon.close()
+    obs.maxi("triage-cpu-seconds", round(mon.triage_cpu, 1))
     obs.anchors.update(anchors.snapshot())
     return obs
 
